@@ -781,6 +781,21 @@ func genLiterals(c *GenCtx) {
 	for _, b := range bad {
 		c.add("lit-malformed", b, `{"":1,"a\tb":2}`)
 	}
+	// \u followed by four characters of which one is not a hex digit (signs, blanks, x, underscore, g), in each position,
+	// for the first and the second half of a surrogate pair, in quoted identifiers and JSON literals
+	for _, junk := range []string{"+", "-", " ", "x", "_", "g", "G", ".", "０"} {
+		for pos := 0; pos < 4; pos++ {
+			hex := []string{"0", "0", "4", "1"}
+			hex[pos] = junk
+			h := strings.Join(hex, "")
+			sur := []string{"d", "e", "0", "0"}
+			sur[pos] = junk
+			hs := strings.Join(sur, "")
+			for _, form := range []string{`"\u` + h + `"`, "`\"\\u" + h + "\"`", `"a\u` + h + `b"`, `"\ud83d\u` + hs + `"`, "`\"\\ud83d\\u" + hs + "\"`", `{"\u` + h + `": a}`, `a."\u` + h + `"`} {
+				c.add("lit-malformed", form, `{"A":1,"a":2}`)
+			}
+		}
+	}
 	// every character after a backslash, in each kind of literal and in each position (bounded-exhaustive)
 	var after []string
 	for ch := 0x20; ch < 0x7f; ch++ {
@@ -934,6 +949,21 @@ func genLet(c *GenCtx) {
 			e = "let $x = " + r.Pick([]string{"a", "foo", "@", "`7`", "b"}) + " in " + e
 		}
 		c.add("let", e, doc)
+	}
+	// a let-bound variable inside the key expression of every expression-reference builtin, numeric and string keys,
+	// arrays of 0–4 elements (the first element and the later ones may take different code paths)
+	byExprs := []string{"min_by(pts, &abs(x - $t)).name", "max_by(pts, &abs(x - $t)).name", "sort_by(pts, &abs(x - $t))[*].name", "map(&(x - $t), pts)",
+		"group_by(pts, &to_string(x > $t))", "min_by(pts, &join('', [name, $s])).name", "max_by(pts, &join('', [$s, name])).name", "sort_by(pts, &join('', [name, $s]))[*].name",
+		"pts[?x > $t].name", "pts[*].[name, $t]", "pts[?x > $t] | min_by(@, &(x - $t)).name", "let $u = $t in min_by(pts, &abs(x - $u)).name",
+		"min_by(pts, &(let $t = x in $t)).name", "max_by(pts, &(x * $t - $undefined)).name", "min_by(pts, &$t).name", "sort_by(pts, &$s)[*].name"}
+	for k := 0; k < c.n(1500, 20000); k++ {
+		np := r.Intn(5)
+		var pts []string
+		for i := 0; i < np; i++ {
+			pts = append(pts, fmt.Sprintf(`{"name":"p%d","x":%d}`, i, r.Intn(20)))
+		}
+		doc := fmt.Sprintf(`{"target":%d,"suffix":"z","pts":[%s]}`, r.Intn(20), strings.Join(pts, ","))
+		c.add("let-by", "let $t = target, $s = suffix in "+r.Pick(byExprs), doc)
 	}
 }
 
@@ -1089,6 +1119,10 @@ func genEquality(c *GenCtx) {
 		"[x, y, z][?@]", "[x, y, z][?@ == `null`]", "[x,y,z][?!@]", "(x == y) == !(x != y)", "x && y || z", "!x || y", "[x, y][?@ == $.z]", "type(x) == type(y)",
 		"[x][?@ == $.y]", "not_null(x, y, z)", "x == y && y == z", "[x == `0`, x == `false`, x == `\"\"`, x == `[]`, x == `{}`, x == `null`]", "y[?@ == $.x]",
 		"length([x, y, z][?@]) == length([x, y, z][?!(!@)])",
+		// membership in heterogeneous arrays, the element sought behind elements of other types
+		"contains([z, y, x], x)", "contains([`\"s\"`, `null`, x], x)", "contains([`[]`, `{}`, `true`, x, y], y)", "contains([`\"n/a\"`, z, x, y], y)",
+		"contains([`null`, `false`, `\"\"`, y], x)", "[x, y, z][?contains([`\"a\"`, `null`, $.z, $.y, $.x], @)]", "contains([[x], `1`, x], x)", "contains([{a: x}, x], x)",
+		"contains([`\"1\"`, `1`], x)", "contains([z, `\"k\"`, y], x) == (z == x || y == x)",
 		// truthiness applied to the result of every comparison (ordering comparisons of non-numbers are null, and !null is true)
 		"!(x < y)", "!(x <= y)", "!(x > y)", "!(x >= y)", "!(x == y)", "!(x != y)", "[!(x < y), x >= y]", "[!(x > y), x <= y]", "!(x < y) == (x >= y)",
 		"(x < y) || z", "(x > y) && z", "(x <= y) || (y <= x)", "[x, y, z][?!(@ < $.y)]", "[x, y, z][?!(@ >= $.x)]", "[x, y, z][?@ < $.y || @ >= $.y]",
@@ -1332,6 +1366,26 @@ func genCost(c *GenCtx) {
 		c.add("cost-replace", "replace(s, 'l', 'L', `"+x+"`)", doc)
 		c.add("cost-replace", "replace(s, '', '-', `"+x+"`)", doc)
 		c.add("cost-find", "find_first(s, 'l', `"+x+"`)", doc)
+	}
+	// every expression-reference builtin nested in its own key expression (and in each other's), 1–30 levels, over
+	// one-element arrays: one evaluation of the key per element per level, anything more is exponential
+	wraps := []string{"min_by($, &%s)", "max_by($, &%s)", "sort_by($, &%s)[0]", "map(&%s, $)[0]", "min_by(@, &%s)", "max_by(@, &%s)", "sort_by(@, &%s)[0]",
+		"group_by($, &type(%s))", "min_by($, &%s) && `1`", "[?%s]", "$[?%s == `7`] | [0]"}
+	for _, d := range []string{`[7]`, `["k"]`, `[{"a":1}]`} { // one element: with two, 2^depth evaluations are inherent (KF05 family)
+		for _, w := range wraps {
+			for _, depth := range []int{1, 2, 5, 12, 20, 30} {
+				e := "@"
+				if strings.Contains(w, "[?") {
+					e = "`true`"
+				}
+				for i := 0; i < depth; i++ {
+					e = strings.ReplaceAll(w, "%s", e)
+				}
+				if len(e) < 19000 {
+					c.ops = append(c.ops, Op{Kind: "S", Expr: []byte(e), Data: d, Family: "cost-nest", Risky: depth >= 20})
+				}
+			}
+		}
 	}
 	// numeric text over the decimal range
 	for k := 0; k < c.n(500, 5000); k++ {
